@@ -67,6 +67,7 @@ type Graph struct {
 	pendingEdges []pendingEdge
 	live         map[*Node]bool
 	heads        map[*Ctx]map[*ssa.BasicBlock]*Node
+	headOf       map[*Node]*ssa.BasicBlock
 	RootCtx      *Ctx
 }
 
@@ -949,37 +950,151 @@ type NodePred func(*Node) bool
 // through a node satisfying avoid (from-nodes themselves are not tested against avoid; the
 // target is tested for `to` before `avoid`). nil if there is none.
 func (g *Graph) PathAvoiding(from []*Node, to NodePred, avoid NodePred) []*Node {
-	prev := map[*Node]*Node{}
-	seen := map[*Node]bool{}
-	var q []*Node
+	// The search is path-sensitive in one respect: values of a named basic type (an outcome enum:
+	// "advanced" / "wait" / "stop") are propagated along the path when they are constants — the
+	// constant an expanded callee returns at the return site the path leaves it through, and the
+	// constant a phi takes on the edge the path enters its block by. A branch that compares such a
+	// value with a different constant is not taken. State = (node, known constants).
+	type state struct {
+		n   *Node
+		env string // canonical rendering of the known constants
+	}
+	envs := map[string]map[ssa.Value]string{"": {}}
+	keyOf := func(m map[ssa.Value]string) string {
+		if len(m) == 0 {
+			return ""
+		}
+		var parts []string
+		for v, k := range m {
+			parts = append(parts, fmt.Sprintf("%p=%s", v, k))
+		}
+		sort.Strings(parts)
+		key := strings.Join(parts, ";")
+		if _, ok := envs[key]; !ok {
+			envs[key] = m
+		}
+		return key
+	}
+	with := func(env string, v ssa.Value, k string, set bool) string {
+		old := envs[env]
+		if cur, has := old[v]; (set && has && cur == k) || (!set && !has) {
+			return env
+		}
+		m := make(map[ssa.Value]string, len(old)+1)
+		for a, b := range old {
+			m[a] = b
+		}
+		if set {
+			m[v] = k
+		} else {
+			delete(m, v)
+		}
+		return keyOf(m)
+	}
+	enumLike := func(t types.Type) bool {
+		if _, named := t.(*types.Named); !named {
+			return false
+		}
+		b, ok := t.Underlying().(*types.Basic)
+		return ok && b.Info()&types.IsBoolean == 0 && b.Info()&(types.IsInteger|types.IsString) != 0
+	}
+	blockOf := func(n *Node) *ssa.BasicBlock {
+		if n.In != nil {
+			return n.In.Block()
+		}
+		return nil
+	}
+	prev := map[state]state{}
+	seen := map[state]bool{}
+	var q []state
 	// seeds are not marked seen: a seed that is also a target must be found when reached again
-	q = append(q, from...)
 	isSeed := map[*Node]bool{}
 	for _, f := range from {
 		isSeed[f] = true
+		q = append(q, state{n: f})
 	}
 	for len(q) > 0 {
-		n := q[0]
+		cur := q[0]
 		q = q[1:]
+		n := cur.n
 		for _, s := range n.Succ {
-			if seen[s] {
+			env := cur.env
+			// leaving an expanded callee through a return of a constant
+			if s.Kind == NCallRet && n.In != nil {
+				if ret, isRet := n.In.(*ssa.Return); isRet && n.Ctx != nil && n.Ctx.Site != nil && n.Ctx.Site == s.In {
+					if sv, isV := n.Ctx.Site.(ssa.Value); isV && len(ret.Results) == 1 && enumLike(sv.Type()) {
+						if k, ok := constResult(ret); ok {
+							env = with(env, sv, k, true)
+						} else {
+							env = with(env, sv, "", false)
+						}
+					}
+				}
+			}
+			// entering a block: the phis take the value of the edge the path comes by
+			if sb := g.headBlock(s); sb != nil && n.Ctx == s.Ctx {
+				if pb := blockOf(n); pb != nil {
+					idx := -1
+					for i, p := range sb.Preds {
+						if p == pb {
+							idx = i
+						}
+					}
+					if idx >= 0 {
+						for _, in := range sb.Instrs {
+							phi, isPhi := in.(*ssa.Phi)
+							if !isPhi {
+								break
+							}
+							if !enumLike(phi.Type()) {
+								continue
+							}
+							e := phi.Edges[idx]
+							if c, isC := e.(*ssa.Const); isC && c.Value != nil {
+								env = with(env, phi, c.Value.ExactString(), true)
+							} else if k, has := envs[env][e]; has {
+								env = with(env, phi, k, true)
+							} else {
+								env = with(env, phi, "", false)
+							}
+						}
+					}
+				}
+			}
+			if (s.Kind == NTrue || s.Kind == NFalse) && env != "" {
+				if ifi, isIf := s.In.(*ssa.If); isIf {
+					infeasible := false
+					for v, k := range envs[env] {
+						if feasible, known := branchOnConst(ifi, v, k, s.Kind == NTrue); known && !feasible {
+							infeasible = true
+						}
+					}
+					if infeasible {
+						continue
+					}
+				}
+			}
+			nxt := state{n: s, env: env}
+			if seen[nxt] {
 				continue
 			}
 			if isSeed[s] && !(to != nil && to(s)) {
 				// already queued as a seed: do not give it a predecessor (that would make the
 				// witness chain cyclic)
-				seen[s] = true
+				seen[nxt] = true
 				continue
 			}
 			if to != nil && to(s) {
 				// walk back to the seed the search started from; the target may itself be a
 				// seed (a cycle through a loop header), so it is not given a predecessor
 				path := []*Node{s}
-				for x := n; x != nil && len(path) <= len(g.Nodes)+1; x = prev[x] {
-					path = append(path, x)
-					if isSeed[x] {
+				x, okx := cur, true
+				for okx && len(path) <= 4*len(g.Nodes)+1 {
+					path = append(path, x.n)
+					if isSeed[x.n] {
 						break
 					}
+					x, okx = prev[x]
 				}
 				for i, j := 0, len(path)-1; i < j; i, j = i+1, j-1 {
 					path[i], path[j] = path[j], path[i]
@@ -989,12 +1104,68 @@ func (g *Graph) PathAvoiding(from []*Node, to NodePred, avoid NodePred) []*Node 
 			if avoid != nil && avoid(s) {
 				continue
 			}
-			seen[s] = true
-			prev[s] = n
-			q = append(q, s)
+			seen[nxt] = true
+			prev[nxt] = cur
+			q = append(q, nxt)
 		}
 	}
 	return nil
+}
+
+// headBlock: the basic block whose (placeholder) head node n is, nil if n is not a block head.
+func (g *Graph) headBlock(n *Node) *ssa.BasicBlock {
+	if g.headOf == nil {
+		g.headOf = map[*Node]*ssa.BasicBlock{}
+		for _, m := range g.heads {
+			for b, h := range m {
+				g.headOf[h] = b
+			}
+		}
+	}
+	return g.headOf[n]
+}
+
+// constResult: the function returns a single value and this return site hands back a constant of
+// a basic, non-boolean type (an outcome code).
+func constResult(ret *ssa.Return) (string, bool) {
+	if len(ret.Results) != 1 {
+		return "", false
+	}
+	k, ok := ret.Results[0].(*ssa.Const)
+	if !ok || k.Value == nil {
+		return "", false
+	}
+	if b, isB := k.Type().Underlying().(*types.Basic); !isB || b.Info()&types.IsBoolean != 0 {
+		return "", false
+	}
+	return k.Value.ExactString(), true
+}
+
+// branchOnConst: the If compares the value of the call site with a constant; given that the call
+// returned k, is the edge (true / false) feasible? known=false if the If is not such a test.
+func branchOnConst(ifi *ssa.If, site ssa.Value, k string, onTrue bool) (feasible, known bool) {
+	b, ok := ifi.Cond.(*ssa.BinOp)
+	if !ok || (b.Op != token.EQL && b.Op != token.NEQ) {
+		return true, false
+	}
+	var other ssa.Value
+	switch {
+	case b.X == site:
+		other = b.Y
+	case b.Y == site:
+		other = b.X
+	default:
+		return true, false
+	}
+	c, ok := other.(*ssa.Const)
+	if !ok || c.Value == nil {
+		return true, false
+	}
+	eq := c.Value.ExactString() == k
+	if b.Op == token.NEQ {
+		eq = !eq
+	}
+	return eq == onTrue, true
 }
 
 // Reachable returns the set of nodes reachable from from without passing through avoid.
